@@ -5,25 +5,7 @@ from pathlib import Path
 
 ROOT = Path(__file__).resolve().parent.parent
 
-CLAIMED = {
-    'C02': dict(
-        text='Lean theorems (Props/C02.lean): for every list of well-formed frames and every chunking of its bytes (or of any prefix), '
-             'the reader dispatches exactly the frames sent, once, in order, routed by channel id, and keeps exactly the unconsumed strict '
-             'prefix of the next frame. Unbounded in frames, sizes and cuts. The byte-count guard the proof needs is regenerated from '
-             'Connection._handle_amqp_frame each run; the model is co-executed with the real reader loop and _handle_amqp_frame.',
-        note='pamqp envelope modelled (unmarshalEnv) and tied by correspondence; payload codecs opaque; SSL read path not modelled.',
-        technique='Lean 4 proof (structural induction over frames/chunks) + regenerated guard + SEQ correspondence',
-        design='3/C02'),
-    'C04': dict(
-        text='Lean theorems (Props/C04.lean): for every body and every channel limit, the body frames are non-empty, at most max(limit-8,1) '
-             'bytes, exactly ceil(len/slice) many, and concatenate to the encoded body; the header announces the encoded length; the '
-             'negotiated frame size is positive, within client and non-zero broker limits, equals what TuneOk announces, and no body frame '
-             'exceeds it on the wire. All arithmetic kernels are regenerated from _create_content_body, Basic.__init__, _negotiate and '
-             '_send_tune_ok each run; the model is co-executed with the real Basic.publish on a boundary grid.',
-        note='ceil via float translated as exact ceiling (len < 2^53); codecs other than utf-8 opaque; pamqp marshalling of method/header opaque.',
-        technique='Lean 4 proof over regenerated arithmetic kernels + SEQ correspondence on a boundary grid',
-        design='3/C04'),
-}
+CLAIMED = {p.stem: json.loads(p.read_text()) for p in sorted((ROOT / 'harness' / 'claims').glob('C*.json'))}
 
 PENDING_REASON = 'not yet built in this round (design in DESIGN.md section 3); will be claimed when its Lean model, theorems and tie exist'
 
